@@ -162,6 +162,10 @@ func (b *exampleBuilder) buildExampleForMixedValueNode(node *ischema.MixedValueN
 		b.processedTypes[typeName]++
 		ex, err := b.Build(t.Schema.RootNode())
 		b.processedTypes[typeName]--
+		if ex == nil && err == nil {
+			// The cut-off was reached deeper inside this type, try the next one.
+			continue
+		}
 		return ex, err
 	}
 
